@@ -47,7 +47,7 @@ Op(rr) ==
     LET S == Ents("stack")
     IN IF S = {} THEN Source(rr)
     ELSE
-    LET i == Ch(S, rr[1])  xs == pool[i].v  n == Len(xs)  o == Ch(1..19, rr[2])  x == (rr[3] % 7) - 1
+    LET i == Ch(S, rr[1])  xs == pool[i].v  n == Len(xs)  o == Ch(1..21, rr[2])  x == (rr[3] % 7) - 1
     IN CASE o \in {1, 2} -> New("stack", Append(xs, IntV(x)), Call("push", <<V(i), Lit(x)>>))
          [] o \in {3, 4} -> IF n = 0 THEN NewErr("stack", Call("tail", <<V(i)>>))
                             ELSE New("stack", SubSeq(xs, 1, n - 1), Call("tail", <<V(i)>>))
@@ -77,6 +77,11 @@ Op(rr) ==
                           b == Call("push", <<Call("push", <<Call("tail", <<V(i)>>), Lit(x)>>), V(j)>>)
                       IN IF o = 19 /\ xs = ys THEN New("bool", BoolV(TRUE), Op2("eq", Call("hash", <<a>>), Call("hash", <<b>>)))
                          ELSE New("bool", BoolV(xs = ys), Op2("eq", a, b))
+         \* the left operand is an empty sequence in its canonical representation (everything skipped)
+         [] o = 20 /\ Ents("seq") # {} -> LET j == Ch(Ents("seq"), rr[3])
+                      IN New("seq", Reverse(xs), Op2("add", Call("skip", <<V(j), Lit(Len(pool[j].v))>>), V(i)))
+         [] o = 21 /\ Ents("seq") # {} -> LET j == Ch(Ents("seq"), rr[3])
+                      IN New("seq", xs, Fn("add_rev", <<Call("take", <<V(j), Lit(0)>>), V(i)>>))
          [] OTHER -> Source(rr)
 
 Init == pool = <<>> /\ step = 0 /\ r = <<>>
